@@ -54,13 +54,17 @@ class NextResponse(StreamingResponse):
         folded = ", ".join(self.raw_set_cookies)
         if len(self.raw_set_cookies) > 1 and self.headers.get("set-cookie") == folded:
             # untouched by the middleware: send the lines as the application did
-            headers = [h for h in headers if h[0] not in ("set-cookie", b"set-cookie")]
-            for line in self.raw_set_cookies:
-                headers.append(
+            # (only the folded entry is replaced, cookies set on this response stay)
+            if as_bytes:
+                index = headers.index((b"set-cookie", folded.encode("latin-1")))
+                lines = [
                     (b"set-cookie", line.encode("latin-1"))
-                    if as_bytes
-                    else ("set-cookie", line)
-                )
+                    for line in self.raw_set_cookies
+                ]
+            else:
+                index = headers.index(("set-cookie", folded))
+                lines = [("set-cookie", line) for line in self.raw_set_cookies]
+            headers[index : index + 1] = lines
         return headers
 
     @classmethod
